@@ -1,13 +1,16 @@
 // bbiwrite::calculate_offsets, write_tree, write_rtreeindex: the writer of the on-disk R-tree
-// (cirTree) index, level-order layout.  C05/C09: the bytes appended are the published cirTree
+// (cirTree) index, level-order layout.  C05/C09: the bytes appended are the published 48-byte cirTree
 // header followed by the nodes of level `levels`, ..., level 0, every node in the published node
 // layout, and EVERY CHILD POINTER EQUALS THE ABSOLUTE FILE POSITION OF THE CHILD'S NODE HEADER --
-// for every number of levels, every fan-out, partly filled last nodes on every level.
-// The code computes pointers as `childnode_offset + idx * full_node_size`; the format spec below
+// for every number of levels, every fan-out <= 65535, partly filled last nodes on every level.
+// The code computes pointers as `childnode_offset + idx * full_node_size`; the format spec (spec.rs)
 // computes them from the REAL sizes of the nodes that precede the child.  They agree because of
 // the fullness clause of `wf` (every node that is not the last of its level has exactly
-// block_size children) -- which is an explicit precondition here (established by get_rtreeindex,
-// which is NOT verified by this unit).
+// block_size children) -- an explicit precondition here; it is what get_rtreeindex's chunking
+// produces, but get_rtreeindex is NOT verified by this unit.
+// Files: spec.rs (sizes, wf, format spec), lemmas.rs (fullness => sizes, lengths), stored.rs (the image
+// read back by position), decode.rs (the image read back by an independent little-endian reader that
+// follows the stored pointers) -- the last is the top-level statement of write_rtreeindex.
 use vstd::prelude::*;
 use vstd::std_specs::convert::FromSpec;
 verus! {
